@@ -696,7 +696,7 @@ func writeEvidence(id string, cfg propCfg, tier string, seed int64, t *workerSta
 			"code_fingerprint":              fp,
 			"technique":                     cfg.Technique,
 			"components_real":               []string{"all kcache packages (instrumented copy of /repo's working tree)", "github.com/boz/go-lifecycle (instrumented copy)", "k8s.io/apimachinery meta/runtime/labels/watch helpers (unmodified)"},
-			"components_stub":               []string{"API server (world.Server: versioned store, event log, watch replay, 410 on compaction)", "client-go REST/HTTP layer (never in the loop)", "logger (recording, optional preemption point)", "Go scheduler, timers, math/rand (detsim)"},
+			"components_stub":               []string{"API server (world.Server: versioned store, event log, watch replay, 410 on compaction)", "client-go REST/HTTP layer (never in the loop; in the client probe of C20 client-go's request construction runs for real, uninstrumented and sequential, over a scripted in-process http.RoundTripper)", "logger (recording, optional preemption point)", "Go scheduler, timers, math/rand (detsim)"},
 		},
 		"assumptions": []string{
 			"sampling, not proof: a clean batch is evidence for the explored schedules/faults/histories only",
